@@ -111,7 +111,15 @@ StepVerdict(e, pre, post) ==
       exact == IF ~r.exact \/ host \/ ~RegsTypeOK(post) THEN <<>>
                ELSE (IF out # r.out THEN <<"outcome">> ELSE <<>>) \o StateDiff(r.s, post, r) \o
                     (IF osys # <<>> THEN <<"sys.other">> ELSE <<>>)
-  IN [id |-> e.id, v |-> env \o nopclause \o exact, path |-> r.path]
+      \* expected values of mismatching registers / memory cells (diagnostics only)
+      why == IF exact = <<>> THEN <<>>
+             ELSE LET regs == SeqOfSet({n \in RNames : n \notin r.dcR /\ r.s.R[n] # post.R[n]})
+                      cells == SeqOfSet({c \in (Touched(r.s.mem) \cup Touched(post.mem)) \ r.dcM :
+                                           DevByte(r.s.mem, c[1], c[2]) # DevByte(post.mem, c[1], c[2])})
+                  IN [k \in 1..Len(regs) |-> <<regs[k], r.s.R[regs[k]]>>] \o
+                     [k \in 1..Len(cells) |-> <<"mem", cells[k][1] - 1, cells[k][2], DevByte(r.s.mem, cells[k][1], cells[k][2])>>] \o
+                     <<<<"out", r.out>>, <<"cpsr", r.s.cpsr>>>>
+  IN [id |-> e.id, v |-> env \o nopclause \o exact, path |-> r.path, why |-> why]
 
 \* exception entry actions (C11): the implementation's take_*_exception() called directly
 ExcVerdict(e, pre, post) ==
